@@ -81,14 +81,19 @@ pub const REQ_BITS: u8 = C_MULTI_REQ | C_SPACE_BEFORE_FIRST | C_IGNORE_REQ;
 pub const RESP_BITS: u8 = C_SPACES_AFTER_NAME | C_FOLDING | C_MULTI_RESP | C_SPACE_BEFORE_FIRST | C_IGNORE_RESP;
 
 pub fn make_config(bits: u8) -> ParserConfig {
+    // every setter is called twice, first with the opposite value: a configuration is whatever the
+    // LAST call of each setter said, not an accumulation of earlier ones
     let mut c = ParserConfig::default();
-    c.allow_spaces_after_header_name_in_responses(bits & C_SPACES_AFTER_NAME != 0);
-    c.allow_obsolete_multiline_headers_in_responses(bits & C_FOLDING != 0);
-    c.allow_multiple_spaces_in_request_line_delimiters(bits & C_MULTI_REQ != 0);
-    c.allow_multiple_spaces_in_response_status_delimiters(bits & C_MULTI_RESP != 0);
-    c.allow_space_before_first_header_name(bits & C_SPACE_BEFORE_FIRST != 0);
-    c.ignore_invalid_headers_in_responses(bits & C_IGNORE_RESP != 0);
-    c.ignore_invalid_headers_in_requests(bits & C_IGNORE_REQ != 0);
+    for pass in 0..2 {
+        let v = |bit: u8| (bits & bit != 0) ^ (pass == 0);
+        c.allow_spaces_after_header_name_in_responses(v(C_SPACES_AFTER_NAME));
+        c.allow_obsolete_multiline_headers_in_responses(v(C_FOLDING));
+        c.allow_multiple_spaces_in_request_line_delimiters(v(C_MULTI_REQ));
+        c.allow_multiple_spaces_in_response_status_delimiters(v(C_MULTI_RESP));
+        c.allow_space_before_first_header_name(v(C_SPACE_BEFORE_FIRST));
+        c.ignore_invalid_headers_in_responses(v(C_IGNORE_RESP));
+        c.ignore_invalid_headers_in_requests(v(C_IGNORE_REQ));
+    }
     c
 }
 
